@@ -20,6 +20,10 @@ C10.funnel  the IXFR diff funneler forwards every item of a diff except SOA
 C10.room    the room an XFR response message may use is the transport's
             maximum minus the bytes later middleware (TSIG) reserved, on the
             UDP *and* on the TCP arm.
+C10.set     an RRset is a set: when the updater adds a record to an existing
+            RRset, copying the existing records is conditional on a comparison
+            with the new record's data, so a record sent twice (duplicate RR
+            or re-sent message in a transfer) is stored once.
 C10.abandon an abandoned update is rolled back: shares the rollback-coverage,
             Drop and Versioned guard-table rules of C09 (rbk, drop, ver).
 """
@@ -49,6 +53,7 @@ def run(ctx):
     rule_diff(ctx, F)
     rule_funnel(ctx, F)
     rule_room(ctx, F)
+    rule_set(ctx, F)
     # abandoned work is rolled back (shared rules)
     c09.rule_rbk(ctx, F)
     c09.rule_drop(ctx, F)
@@ -318,3 +323,27 @@ def rule_room(ctx, F):
         ctx.ob(R, b, "the %s arm leaves the reserved bytes free" % var, subs,
                "calc_msg_bytes_available does not subtract req.num_reserved_bytes() on the %s arm: XFR fills its messages into "
                "the room a later middleware (TSIG) reserved, the signature no longer fits and the transfer fails" % var)
+
+
+def rule_set(ctx, F):
+    R = "C10.set"
+    ctx.floor(R, 1)
+    bs = [b for p, b in F.bodies.items() if re.match(r"^zonetree::update::ZoneUpdater::<.*>::add_record_to_rrset::\{closure#0\}$", p)]
+    if not ctx.anchor(R, "ZoneUpdater::add_record_to_rrset", len(bs) == 1):
+        return
+    b = bs[0]
+    from rulelib import cyclic_blocks
+    cyc = cyclic_blocks(b)
+    pushes = [bb for bb, t in b.calls() if re.search(r"Rrset::push_data$", t["fn"] or "") and bb in cyc]
+    if not ctx.anchor(R, "copy of the existing records (push_data in a loop)", len(pushes) >= 1, b.where()):
+        return
+    for bb in pushes:
+        cmpd = False
+        for tt, v, _ in facts_at(b, bb, F):
+            s = deep_strip(tt)
+            if isinstance(v, bool) and ((s[0] == "call" and re.search(r"::(eq|ne)$", s[1] or "")) or (s[0] == "bin" and s[1] in ("Eq", "Ne"))):
+                if "try_flatten_into" in show(s) or "into_data" in show(s) or "data" in show(s):
+                    cmpd = True
+        ctx.ob(R, b, "an existing record equal to the new one is not copied next to it", cmpd,
+               "add_record_to_rrset puts the new record and *all* existing records into the replacement RRset without comparing "
+               "them: a record that arrives twice in a transfer is stored, served and re-transferred twice", b.where(bb))
